@@ -139,6 +139,17 @@ def cases(rng, tier):
             lines = ["alias %s = %s;" % (nm, txt) for txt, nm in g.aliases.items()] + lines
         out.append({"wgsl": "\n".join(lines) + "\n", "family": "encase_glam", "opts": {"encase": True, "mv": "Glam"},
                     "tys": structs + ([rts] if rts else []) + extra, "rts_lengths": [0, 1, 3]})
+    # two structs whose names are equal up to the case style, one nested in a third: every field refers to ITS struct
+    for i in range({"quick": 4, "search": 8, "thorough": 16}[tier]):
+        sa = Ty("struct", name="light_data", members=[("color", Ty("vec", n=4, s="f32")), ("range", Ty("scalar", s="f32"))], has_rts=False)
+        sb = Ty("struct", name="LightData", members=[("m", Ty("mat", c=4, r=4, s="f32")), ("flags", Ty("scalar", s="u32")), ("dir", Ty("vec", n=3, s="f32"))], has_rts=False)
+        first, second = (sa, sb) if i % 2 == 0 else (sb, sa)
+        scene = Ty("struct", name="Scene", members=[("key", second), ("exposure", Ty("scalar", s="f32")), ("fill", first)], has_rts=False)
+        g = structgen.Gen(rng)
+        w = "\n".join([g.render_struct(first), g.render_struct(second), g.render_struct(scene),
+                       "@group(0) @binding(0) var<storage, read_write> scene: Scene;", "@compute @workgroup_size(1) fn main() {}"]) + "\n"
+        out.append({"wgsl": w, "family": "names_equal_up_to_case_style", "opts": {"encase": True, "mv": "Glam"},
+                    "tys": [first, second, scene], "rts_lengths": [0]})
     # the other derive switches on top of encase + glam must not change how encase sees the fields: small structs around
     # mat2x2 / vec2 / scalars, with bytemuck host-shareable (and serde) on as well
     for i in range({"quick": 8, "search": 16, "thorough": 40}[tier]):
